@@ -353,6 +353,9 @@ func (e *FnEnc) havocAll(why string) {
 		if name == AllocVar.Name || strings.HasPrefix(name, "VIS.") || strings.HasPrefix(name, "POS.") || strings.HasPrefix(name, "GH.") {
 			continue
 		}
+		if immutableHeap(name) {
+			continue
+		}
 		old := e.heap(hv)
 		nw := e.havocHeap(hv)
 		for _, l := range e.locals {
@@ -780,4 +783,15 @@ func (e *FnEnc) protectCheck(l *Loc, write bool, in ssa.Instruction) {
 		env.site = e.curBlock
 		e.obligeClause(env, *cl, fmt.Sprintf("protect.%s.%s.%s@%s", p.Type, p.Field, kind, e.posOf(in)), "protocol", e.curGuard, e.posOf(in))
 	}
+}
+
+// immutableHeap: objects owned by go/ssa, go/types, go/token, go/constant and go/ast are not mutated by the code
+// under contract (assumption A-imm): unknown calls leave their struct heaps unchanged.
+func immutableHeap(name string) bool {
+	for _, p := range []string{"H.S.ssa.", "H.S.types.", "H.S.token.", "H.S.constant.", "H.S.ast."} {
+		if strings.HasPrefix(name, p) {
+			return true
+		}
+	}
+	return false
 }
